@@ -84,7 +84,7 @@ def run(ctx, rep):
     ret = canon(nb.pexpr_local(0), 0, 2)
     rep.ob('R17.c', N, 'result form', ret == 'phi{1 | Atomic::fetch_add(self.current_partition_id, 1, Ordering::SeqCst{})}', None, 'returns ' + ret)
     check_comparisons(ctx, rep, 'R17.c', {N: ['(HashMap::len(self.partitions) < phi{1 | Atomic::fetch_add(self.current_partition_id, 1, Ordering::SeqCst{})})']})
-    forms.check_call_args(ctx, rep, 'R17.c', {N: {'Atomic::swap': ['(1 + phi{1 | Atomic::fetch_add(self.current_partition_id, 1, Ordering::SeqCst{})}), Ordering::SeqCst{}'],
+    forms.check_call_args(ctx, rep, 'R17.c', {N: {'Atomic::swap': ['(1 + 1), Ordering::SeqCst{}'],
                                                   'Atomic::fetch_add': ['1, Ordering::SeqCst{}']}})
 
     rep.rule('R17.d', 'a non-existent partition stores nothing: the append is reached only through the Some edge of partitions.get(id)', floor=2, analysis='A2')
